@@ -100,8 +100,44 @@ def swap3(size, a, b, c) -> bool:
     return any(_swap_prone(t) for t in _suite(*realize((size, a, b, c))))
 
 
-def has_new1(n, k0, k1, k2, k3) -> bool:
-    return L.K["new"] in _kinds(*realize((n, k0, k1, k2, k3)))
+def _counter_makers(kinds) -> int:
+    """Statements that construct a Counter: ``new``, and bump/step/absorb without a counter variable to act on."""
+    made, counter = 0, False
+    for k in kinds:
+        name = L.KINDS[k]
+        if name == "new":
+            made, counter = made + 1, True
+        elif name in ("bump", "step", "absorb") and not counter:
+            made += 1
+    return made
+
+
+def _field_only(kinds, am) -> bool:
+    """A Counter variable that is asserted on only through a field (``var_1.n``) while another statement constructs a
+    Counter too (so the constructor stays covered without it).  am 4: only field assertions survive -- any ``new``.
+    am 2: only the last statement's assertions survive -- a ``new`` that is bumped and followed by a binding statement
+    (which observes the changed ``var.n``)."""
+    if _counter_makers(kinds) < 2:
+        return False
+    if am == 4:
+        return L.K["new"] in kinds
+    if am != 2:
+        return False
+    counter, bumped = False, False
+    for k in kinds:
+        name = L.KINDS[k]
+        if bumped and name != "bump":
+            return True
+        if name == "new":
+            counter, bumped = True, False
+        elif name == "bump" and counter:
+            bumped = True
+    return False
+
+
+def field_only1(n, k0, k1, k2, k3, am) -> bool:
+    n, k0, k1, k2, k3, am = realize((n, k0, k1, k2, k3, am))
+    return _field_only(_kinds(n, k0, k1, k2, k3), am)
 
 
 # ------------------------------------------------------------------------------------------------ one test case
@@ -152,12 +188,59 @@ def h_ass_suite(size: int, tmax: int, amax: int, a: int, b: int, c: int, am: int
 
 META = {
     "level": "model_checking",
-    "claim": "TODO",
-    "note": "TODO",
-    "functions": [],
-    "bounds": {},
-    "outside": [],
-    "assumptions": [],
+    "claim": "Solver-enumerated concrete structures on the real code: for every suite of one test case of <= 3 statements (thorough: "
+             "<= 3 over all 11 statement kinds, 4 over the first 8) or of two / three test cases drawn from a table of 8 / 4 (thorough "
+             "12 / 8) test cases of <= 4 statements over corpus/C22_sut.py, every selection of the really generated assertions "
+             "(none, all, last statement's, first statement's, field assertions only) and every minimization strategy x direction, "
+             "running what pynguin.generator runs after the search (create_test_suite + coverage query, AssertionGenerator, "
+             "_minimize) leaves a suite that, executed afresh, (a) has the same values of the real line and branch coverage "
+             "functions, the same covered line ids / branch outcomes in the traces of a fresh real executor and the same LINE / "
+             "BRANCH events of the interpreter on an uninstrumented copy of the subject, (b) consists of test cases obtained from "
+             "distinct original ones by deleting statements and dropping bindings, and (c) (obligations ass_*) still binds every "
+             "variable an assertion of the original test case reads. Exhaustive within these bounds where the verdict is "
+             "'confirmed'; the regions of the recorded findings (known_findings.d/C22.jsonl) are excluded by their predicates.",
+    "note": "Obligations are solver-enumerated concrete structures: the symbolic inputs are structure selectors (statement kinds, "
+            "template indices, assertion selection, strategy x direction); CrossHair/z3 enumerates them and the body runs untraced "
+            "(NoTracing) on the decoded structure, because the real TestCaseExecutor starts a thread per execution and libcst / "
+            "compile / exec are C boundaries. Everything under test is real (import hook instrumentation BRANCH+LINE, executor, "
+            "chromosomes, coverage functions of the real algorithm factory, AssertionGenerator, generator._minimize); the oracle "
+            "reads nothing from the chromosomes under test. Known-finding predicates are structural supersets of the failing "
+            "inputs (failing / excluded counts are given in the findings' descriptions and in DESIGN.md). Trusts CPython 3.12.1 "
+            "(ast, sys.monitoring), libcst, CrossHair's int model and z3.",
+    "functions": ["pynguin.generator._minimize", "pynguin.generator._check_coverage",
+                  "pynguin.ga.postprocess.ForwardIterativeMinimizationVisitor", "BackwardIterativeMinimizationVisitor",
+                  "CombinedMinimizationVisitor", "TestSuiteMinimizationVisitor", "TestCasePostProcessor",
+                  "UnusedStatementsTestCaseVisitor", "ExceptionTruncation", "EmptyTestCaseRemover",
+                  "get_assertion_protected_variables", "pynguin.testcase.testcase.TestCase.remove_statement_with_forward_dependencies",
+                  "TestCase.clone", "pynguin.ga.computations.TestSuiteLineCoverageFunction / TestSuiteBranchCoverageFunction",
+                  "pynguin.ga.computation_cache.ComputationCache.get_coverage_for", "pynguin.testcase.execution.TestCaseExecutor.execute"],
+    "bounds": {"subject": "corpus/C22_sut.py: classify (3 arms), size (one-line conditional), check (raises above a limit), class Counter "
+                          "(bump, step with two arms of equal size depending on earlier bumps, absorb reading a second counter)",
+               "statement_kinds": "int literals 3 / 9 / -2, str literal, classify / check / size reading the nearest earlier int / str "
+                                  "variable (literal argument if none), Counter(), non-binding bump, step, absorb on the nearest counter(s)",
+               "single": "quick: <= 3 statements over the first 8 kinds; thorough: <= 3 over all 11, and exactly 4 over the first 8",
+               "suites": "quick: pairs over 8 templates, triples over 4; thorough: pairs over 12, triples over 8 (duplicates included)",
+               "assertions": "0 none | 1 all generated | 2 last asserted statement only | 3 first only | 4 field / module-field / "
+                             "exception assertions only",
+               "configurations": "CASE, SUITE, COMBINED x FORWARD, BACKWARD (quick: coverage of single test cases with CASE-F, CASE-B, "
+                                 "COMBINED-F; the asserted-statement aspect where it is not wholly inside a recorded finding)",
+               "coverage_metrics": "BRANCH + LINE (the two optimised coverage functions)"},
+    "outside": ["suites produced by an actual search run (the structures are selector-built), subjects other than the corpus module, "
+                "test cases longer than 4 statements, suites of more than 3 test cases",
+                "suites in which NO test case calls the subject (literals only): minimization empties them and "
+                "TestCaseExecutor.execute of an empty test case races with its own 0 s timeout (thread.join(timeout=0)), so the "
+                "outcome is nondeterministic; observed: coverage values 0.3125 -> 0.0 when the whole suite is emptied",
+                "CHECKED coverage, assertion minimization, the subprocess executor, crash-preserving minimization, flaky subjects",
+                "exceptions escaping _minimize are not a verdict of their own (generator._run logs them and goes on; the suite left "
+                "behind is judged): the restore path always ends in TypeError (get_coverage_for(OrderedSet)) after restoring",
+                "whether exported assertions hold (C20) / survive export (C19), well-formedness of the minimized test cases (C15)"],
+    "assumptions": ["structure selectors are realised and the body runs untraced: solver-enumerated concrete cases, exhaustive within the "
+                    "bound when the verdict is 'confirmed'",
+                    "the state after the search is modelled by create_test_suite + one coverage query per coverage function (every "
+                    "chromosome holds its execution result, nothing is marked changed), as _track_search_metrics leaves it",
+                    "assertion selection (am) models what mutation analysis / assertion minimization keep of the generated assertions",
+                    "'statement whose variable is asserted on' = statement binding the root name of a ReferenceAssertion's source "
+                    "attached to any statement of the same test case; 'same coverage' = same values AND same covered goals"],
 }
 
 
